@@ -255,9 +255,11 @@ def simple_paths(succ, src, dst):
     return bounded_walks(succ, src, dst, 1)
 
 
-def bounded_walks(succ, src, dst, max_occurrences, limit=None):
+def bounded_walks(succ, src, dst, max_occurrences, limit=None, endpoints_once=False):
     """list of all walks src -> dst (lists of nodes, consecutive nodes joined
     by an edge) in which no node occurs more than @max_occurrences times.
+    @endpoints_once: only the walks that never come back to @src and stop the
+    first time they reach @dst.
     @limit: stop (return None) when more than @limit walks exist."""
     out = []
     if src not in succ or dst not in succ:
@@ -273,9 +275,11 @@ def bounded_walks(succ, src, dst, max_occurrences, limit=None):
             out.append(list(path))
             if limit is not None and len(out) > limit:
                 raise TooMany()
+            if endpoints_once:
+                return
         for s in succ[n]:
             c = count.get(s, 0)
-            if c >= max_occurrences:
+            if c >= max_occurrences or (endpoints_once and s == src):
                 continue
             count[s] = c + 1
             path.append(s)
